@@ -15,6 +15,7 @@ import json
 import struct
 
 from .. import kernels, kruns, problems
+from ..kernels import RealWorker
 from ..core import Atom, Check, Driver, sx
 from ..export import export
 
@@ -40,6 +41,9 @@ def right_nested_float_sum(a) -> bool:
         return False
 
     return walk(a.expression)
+
+
+WORKER = RealWorker()
 
 
 def run(chk: Check, drv: Driver):
@@ -70,6 +74,22 @@ def run(chk: Check, drv: Driver):
         chk.count("hoistConsistent_" + str(c))
         if c != "true":
             chk.violation("a variable is declared with two different types (LLVM back end hoists declarations)", pr.case())
+    # hypotheses of `cprint_parse` on every emitted kernel: Layered (the C text parses to leftAssoc of the
+    # tree) and LeftNested (then leftAssoc is the identity: the C text denotes exactly the tree)
+    lay = drv.batch(["CERT layered " + sx(export(pr.module)) for pr in prepared])
+    for pr, rep in zip(prepared, lay):
+        if not isinstance(rep, list) or not all(isinstance(x, list) and len(x) == 4 for x in rep):
+            chk.unproved_obligation("correspondence:ir-reader", "CERT layered failed", pr.case())
+            continue
+        for layered, leftnested, strict, idents in rep:
+            chk.count("kernel_fn_layered_" + str(layered))
+            chk.count("kernel_fn_leftNested_" + str(leftnested))
+            if layered != "true":
+                chk.unproved_obligation("theorem-hypothesis:cprint_parse(Layered)", "an emitted kernel contains an expression outside the fragment "
+                                        "on which the C printer is proved faithful", pr.case())
+            if leftnested != "true" and not right_nested_float_sum(pr.assignment):
+                # re-association by C that does not come from a right-nested user expression
+                chk.count("kernel_fn_reassociated_not_from_user_expression")
     items = []
     for pr in prepared:
         for _ in range(2 if quick else 4):
@@ -94,8 +114,8 @@ def run(chk: Check, drv: Driver):
         by_pr.setdefault(id(pr), (pr, []))[1].append((sizes, ins, r))
     for pr, lst in by_pr.values():
         inputs_list = [ins for _, ins, _ in lst]
-        res_l = kernels.in_fork(lambda: kernels.run_real(pr.text, pr.fs, inputs_list, "llvm"), timeout=120)
-        res_c = kernels.in_fork(lambda: kernels.run_real(pr.text, pr.fs, inputs_list, "cffi"), timeout=120)
+        res_l = WORKER.run(pr.text, pr.fs, inputs_list, "llvm", timeout=120)
+        res_c = WORKER.run(pr.text, pr.fs, inputs_list, "cffi", timeout=120)
         for which, res in (("llvm", res_l), ("cffi", res_c)):
             if res[0] != "ok":
                 chk.violation(f"{which} back end: {res[0]} {res[1:3]}", pr.case(*lst[0][:2]))
